@@ -2,11 +2,12 @@
   Driver/StoreDrv.lean — line protocol for FillAbsent and the candle-store model.
   `fa <start> <stop> <n> (ts o c h l v)*` · `st addseq <n> (…)*` · `st addmulti <k> (…)* <m> (…)*` ·
   `st get <tfMinutes> <k> (short…) <j> (long…)` · `st current <tfMinutes> <k> (…) <j> (…)` ·
-  `st spacing <n> (…)*`
+  `st spacing <n> (…)*` · `st addseqd <bucket> <n> (…)*` (the same sequence through `add_candle` ON THE ARRAY MODEL)
 -/
 import Jesse.Wire
 import Jesse.FillAbsent
 import Jesse.Store
+import Jesse.StoreD
 
 namespace Driver.StoreDrv
 open Jesse Jesse.Wire
@@ -43,6 +44,13 @@ def handleSt (args : List String) : String :=
     (match countThen rest with
      | some (cs, []) => "ok " ++ showCandles (Store.batchAdd [] cs)
      | _ => "bad-op")
+  | "addseqd" :: b :: rest =>
+    (match b.toNat?, countThen rest with
+     | some b, some (cs, []) =>
+       (match StoreD.batchAddD (DynArray.new b 6 none) (cs.map StoreD.enc) with
+        | .ok a => "ok [" ++ ";".intercalate (a.abs.map (fun r => " ".intercalate (r.map showRat))) ++ "]"
+        | .error e => "err " ++ e.name)
+     | _, _ => "bad-op")
   | "addmulti" :: rest =>
     (match countThen rest with
      | some (arr, rest2) => (match countThen rest2 with
